@@ -17,6 +17,8 @@
 //  * Rt::gas_available(): a number; ASSUMED not to overflow when multiplied by 63 (the FVM's gas is bounded by the block gas limit
 //    10^10 « 2^64 / 63; the same expression `63 * gas_available()` is in System::call_gas_limit).
 //  * U256::to_big_endian(): the 32-byte big-endian representation (uint crate), as an opaque injective function of the value.
+//  * Blockstore::get (raw block of a CID: content addressing), U256::from(usize), U256::from(BytecodeHash) (opaque word of the digest),
+//    BytecodeHash::NATIVE_ACTOR.
 //  * two slice helpers whose body IS the original expression (`&m[a..][..n]`, `dst[a..b].copy_from_slice(&vec[c..d])`).
 macro_rules! vx_method_hash { ("InvokeEVM") => { 3844450837 }; }
 macro_rules! vx_log_enabled { ($($t:tt)*) => { vx_log_enabled_fn() } }
@@ -75,7 +77,9 @@ impl ActorError {
     pub fn checked(code: ExitCode, msg: String, data: Option<IpldBlock>) -> (r: ActorError) ensures r.code == code.value { ActorError { code: code.value } }
 }
 impl BytecodeHash {
+    /// keccak256("") and keccak256([0xfe]) (state.rs): two fixed, distinct opaque values
     pub const EMPTY: BytecodeHash = BytecodeHash { h: 0 };
+    pub const NATIVE_ACTOR: BytecodeHash = BytecodeHash { h: 1 };
 }
 
 // ------------------------------------------------------------------ part 2 (new)
@@ -152,6 +156,34 @@ pub uninterp spec fn be32_of(v: int) -> [u8; 32];
 impl U256 {
     #[verifier::external_body]
     pub fn to_big_endian(&self) -> (r: [u8; 32]) ensures r == be32_of(self@) { unimplemented!() }
+}
+/// fvm_ipld_blockstore::Blockstore::get on the actor's store: the raw block stored under a CID, a function of the CID (content addressing)
+pub uninterp spec fn raw_at(c: Cid) -> Option<Seq<u8>>;
+impl Store {
+    #[verifier::external_body]
+    pub fn get(&self, c: &Cid) -> (r: Result<Option<Vec<u8>>, AnyhowError>)
+        ensures r.is_ok() ==> (match r->Ok_0 { Some(v) => raw_at(*c) == Some(v@), None => raw_at(*c).is_none() }),
+    { unimplemented!() }
+}
+/// `U256::from(usize)` (construct_uint!): the same number
+impl vstd::std_specs::convert::FromSpecImpl<usize> for U256 {
+    open spec fn obeys_from_spec() -> bool { false }
+    uninterp spec fn from_spec(v: usize) -> U256;
+}
+impl From<usize> for U256 {
+    #[verifier::external_body]
+    fn from(v: usize) -> (r: U256) ensures r@ == v as int { unimplemented!() }
+}
+/// actors/evm/src/state.rs `impl From<BytecodeHash> for U256`: the 32 digest bytes as a big-endian word — an injective function of the hash, uninterpreted
+pub uninterp spec fn hash_word(h: BytecodeHash) -> int;
+impl ToBig for BytecodeHash { open spec fn big(self) -> int { hash_word(self) } }
+impl vstd::std_specs::convert::FromSpecImpl<BytecodeHash> for U256 {
+    open spec fn obeys_from_spec() -> bool { false }
+    uninterp spec fn from_spec(v: BytecodeHash) -> U256;
+}
+impl From<BytecodeHash> for U256 {
+    #[verifier::external_body]
+    fn from(v: BytecodeHash) -> (r: U256) ensures r@ == hash_word(v) { unimplemented!() }
 }
 /// `&src[a..][..n]` — std panics unless a <= len and n <= len - a
 #[verifier::external_body]
